@@ -25,6 +25,28 @@ const G_STORE: [(u32, u64, &[u8]); 4] = [
     (64, 0x70, &[0x48, 0x89, 0x03]),
 ];
 
+/// Loads through OTHER instructions than MOV (each handler fetches its operand itself):
+/// (name, operand bytes, code offset, code, how the destination relates to the loaded value)
+#[derive(Clone, Copy, PartialEq)]
+enum Dst {
+    /// xmm0 = zero-extended value
+    Xmm,
+    /// rax = zero-extended value
+    RaxZero,
+    /// rax = value sign-extended from 32 bits
+    RaxSign32,
+}
+const G_LOADX: [(&str, u64, u64, &[u8], Dst); 8] = [
+    ("movd", 4, 0x80, &[0x66, 0x0F, 0x6E, 0x03], Dst::Xmm),             // movd xmm0,[rbx]
+    ("movq", 8, 0x88, &[0x66, 0x48, 0x0F, 0x6E, 0x03], Dst::Xmm),       // movq xmm0,[rbx]
+    ("movups", 16, 0x90, &[0x0F, 0x10, 0x03], Dst::Xmm),                // movups xmm0,[rbx]
+    ("movzx32-8", 1, 0x98, &[0x0F, 0xB6, 0x03], Dst::RaxZero),          // movzx eax,byte [rbx]
+    ("movzx32-16", 2, 0xA0, &[0x0F, 0xB7, 0x03], Dst::RaxZero),         // movzx eax,word [rbx]
+    ("movzx64-16", 2, 0xA8, &[0x48, 0x0F, 0xB7, 0x03], Dst::RaxZero),   // movzx rax,word [rbx]
+    ("movsxd", 4, 0xB0, &[0x48, 0x63, 0x03], Dst::RaxSign32),           // movsxd rax,dword [rbx]
+    ("add-load32", 4, 0xB8, &[0x31, 0xC0, 0x03, 0x03], Dst::RaxZero),   // xor eax,eax ; add eax,[rbx]
+];
+
 /// One lazily-faulted, read-only, MAP_NORESERVE zero mapping of 2^40 bytes: valid memory that a
 /// correct bounds check never touches; serves write lengths no Vec could hold.
 fn big_zero() -> &'static [u8] {
@@ -124,6 +146,9 @@ impl M {
 fn mk(areas: &[(u64, u64)]) -> Option<(Axecutor, M)> {
     let mut code = vec![0x90u8; 0x100];
     for (_w, off, b) in G_LOAD.iter().chain(G_STORE.iter()) {
+        code[*off as usize..*off as usize + b.len()].copy_from_slice(b);
+    }
+    for (_n, _l, off, b, _d) in G_LOADX.iter() {
         code[*off as usize..*off as usize + b.len()].copy_from_slice(b);
     }
     let mut ax = Axecutor::new(&code, CODE_AT, CODE_AT).ok()?;
@@ -250,6 +275,55 @@ impl C08 {
                     (None, StepOut::Err(_)) => {
                         if area_fp(&g) != before {
                             { soft_push(out, div(format!("guest-load{width}|state-changed-on-reject"), format!("{after}: failing guest load at {addr:#x} changed memory"))); }
+                        }
+                    }
+                }
+            }
+        }
+        // loads through other instructions (their handlers fetch the operand themselves); the
+        // path does not depend on the write history, so the first two levels are enough
+        if m.writes <= 1 {
+            for addr in m.addr_alphabet() {
+                for (name, n, off, code, dst) in G_LOADX.iter() {
+                    let mut g = ax.clone();
+                    g.reg_write_64(SR::RBX, addr).unwrap();
+                    g.reg_write_64(SR::RAX, 0x1111_2222_3333_4444).unwrap();
+                    g.reg_write_128(crate::emu::XMM[0], 0x5555_6666_7777_8888_9999_AAAA_BBBB_CCCCu128).unwrap();
+                    g.reg_write_64(SR::RIP, CODE_AT + off).unwrap();
+                    let mut so = crate::emu::step(&mut g);
+                    if code.len() == 4 && code[0] == 0x31 {
+                        // two-instruction probe: the load is the second instruction
+                        if let StepOut::Ok(_) = so {
+                            so = crate::emu::step(&mut g);
+                        }
+                    }
+                    match (m.area_of(addr, *n), so) {
+                        (_, StepOut::Panic(p)) => { soft_push(out, div(format!("guest-{name}|panic@{}", p.tag()), format!("{after}: {name} load at {addr:#x} panicked: {}", crate::emu::first_line(&p.msg)))); }
+                        (Some(_), StepOut::Ok(_)) => {
+                            let mut want: u128 = 0;
+                            for i in 0..*n {
+                                want |= (m.bytes[&(addr + i)] as u128) << (8 * i);
+                            }
+                            let (got, want) = match dst {
+                                Dst::Xmm => (g.reg_read_128(crate::emu::XMM[0]).unwrap(), want),
+                                Dst::RaxZero => (g.reg_read_64(SR::RAX).unwrap() as u128, want),
+                                Dst::RaxSign32 => (g.reg_read_64(SR::RAX).unwrap() as u128, want as u32 as i32 as i64 as u64 as u128),
+                            };
+                            if got != want {
+                                { soft_push(out, div(format!("guest-{name}|wrong-value"), format!("{after}: {name} load at {addr:#x} = {got:#x}, the bytes give {want:#x}"))); }
+                            }
+                        }
+                        (Some(_), StepOut::Err(er)) => {
+                            // a form this tree does not implement is not a memory-store matter
+                            if !crate::emu::is_unimplemented_msg(&er) {
+                                { soft_push(out, div(format!("guest-{name}|rejected-valid"), format!("{after}: {name} load at {addr:#x} failed: {}", crate::emu::first_line(&er)))); }
+                            }
+                        }
+                        (None, StepOut::Ok(_)) => { soft_push(out, div(format!("guest-{name}|accepted-invalid"), format!("{after}: {name} load of {n} bytes at {addr:#x} succeeded outside any area"))); }
+                        (None, StepOut::Err(_)) => {
+                            if area_fp(&g) != before {
+                                { soft_push(out, div(format!("guest-{name}|state-changed-on-reject"), format!("{after}: failing {name} load at {addr:#x} changed memory"))); }
+                            }
                         }
                     }
                 }
